@@ -504,6 +504,16 @@ def _traversal(ctx: Ctx, rep: Report, f: Func) -> None:  # noqa: C901
         if bounded is not None:
             rep.violation(f.qualname, f"for ... in {snippet(it, 40)}  <-  {snippet(bounded, 50)}", "the numbers are taken from a range with a fixed end and paired with the items by zip(), which stops at the shorter argument: when the numbers run out the remaining items keep their old numbers and nothing is raised (the returned last number stays below the limit)", where(f, it), inp="AddrGroup with 5 members; resequence(start=4294967290, step=2)")
             return
+        # ... and the returned number is the number the last item got: the variable that is stored on the items, or the
+        # last element of the numbers that were paired with them
+        stored = [x.value for x in ast.walk(loop.ast) if isinstance(x, ast.Assign) and any(isinstance(t, ast.Attribute) and t.attr.lstrip("_") == "sequence" for t in x.targets)]
+        rets0 = [x.value for x in own_nodes(f.node) if isinstance(x, ast.Return) and x.value is not None]
+        zipped = {a0.id for a0 in it.args if isinstance(a0, ast.Name)} if isinstance(it, ast.Call) else set()
+        for r0 in rets0:
+            last_of_numbers = isinstance(r0, ast.Subscript) and isinstance(r0.value, ast.Name) and r0.value.id in zipped and src(r0.slice) == "-1"
+            if stored and not last_of_numbers and not any(src(r0) == src(v0) for v0 in stored):
+                rep.violation(f.qualname, f"return {snippet(r0, 40)}", f"the value returned is not the number the items were given (`{snippet(stored[0], 30)}`): the caller continues the numbering of the next block from a number that is already taken", where(f, r0), inp="an ACL with two blocks; resequence(10, 10)")
+                return
         rep.note(f"R10.4 {f.qualname}: the loop pairs the items with numbers computed elsewhere (`{snippet(it, 40)}`) - order and step of the numbering not judged")
         return
     paths = function_paths(cfg)
